@@ -22,7 +22,7 @@ ASSUMPTIONS = ["hand model of parse_args (corresponded, not verified); ASCII arg
 
 def run(ctx):
     thorough, seed = ctx["thorough"], ctx["seed"]
-    r = cli.check(seed, 20000 if thorough else 2000)
+    r = cli.check(seed, 100000 if thorough else 2000)
     r["distinct_nontrivial"] = r["distinct"]
     r["streams"] = {"cli": r["evaluations"]}
     r["rule"] = ("argument vectors: half random mixtures of sub-commands, every flag, every value syntax of --throttle / --init (well- and "
